@@ -265,10 +265,10 @@ theorem readChainedSeqContext2_noPanic (b : Bytes) (pos : Nat) : (read2 b pos).n
   unfold read2
   refine bind_noPanic (readBytes_noPanic _ _ _ _ (by omega)) (fun buf hbuf => ?_)
   obtain ⟨hl, _⟩ := readBytes_ok_length hbuf
-  obtain ⟨covOff, h0, _⟩ := w16_ok "nested.go:1019#buf[0],buf[1]" buf 0 (by omega)
-  obtain ⟨bOff, h1, _⟩ := w16_ok "nested.go:1020#buf[2],buf[3]" buf 2 (by omega)
-  obtain ⟨iOff, h2, _⟩ := w16_ok "nested.go:1021#buf[4],buf[5]" buf 4 (by omega)
-  obtain ⟨lOff, h3, _⟩ := w16_ok "nested.go:1022#buf[6],buf[7]" buf 6 (by omega)
+  obtain ⟨covOff, h0, _⟩ := w16_ok "nested.go:1015#buf[0],buf[1]" buf 0 (by omega)
+  obtain ⟨bOff, h1, _⟩ := w16_ok "nested.go:1016#buf[2],buf[3]" buf 2 (by omega)
+  obtain ⟨iOff, h2, _⟩ := w16_ok "nested.go:1017#buf[4],buf[5]" buf 4 (by omega)
+  obtain ⟨lOff, h3, _⟩ := w16_ok "nested.go:1018#buf[6],buf[7]" buf 6 (by omega)
   rw [h0, ok_bind, h1, ok_bind, h2, ok_bind, h3, ok_bind]
   refine bind_noPanic (readSlice_noPanic _ _ _ _) (fun r hr => ?_)
   obtain ⟨offs0, q1, c1⟩ := r
